@@ -30,9 +30,11 @@ type PullOpts struct {
 	ServerSeed   int32
 	ReadFilter   bool // the pushing client sends a filter list first (--delete)
 	OptsFromArgs bool
-	// PlanAll: after the regular files, Plan is also asked about (and may
-	// request) entries that are not regular files - a hostile receiver.
-	PlanAll bool
+	// PlanExtra > 0: after the regular files, Plan is also asked about (and may
+	// request) ONE entry that is not a regular file - a hostile receiver. Which
+	// one: the (PlanExtra-1 mod n)-th of the n such entries; a single one,
+	// because such a request usually ends the session.
+	PlanExtra int
 }
 
 type FileResult struct {
@@ -128,11 +130,15 @@ func pullTransfer(w *Wire, o PullOpts, res *PullResult) (*PullResult, error) {
 			order = append(order, idx)
 		}
 	}
-	if o.PlanAll {
+	if o.PlanExtra > 0 {
+		var other []int
 		for idx := range res.Sorted {
 			if !res.Sorted[idx].IsReg() {
-				order = append(order, idx)
+				other = append(other, idx)
 			}
+		}
+		if len(other) > 0 {
+			order = append(order, other[(o.PlanExtra-1)%len(other)])
 		}
 	}
 	for _, idx := range order {
